@@ -57,6 +57,10 @@ func zzH_C01_api() {
 	if zzTier() >= 1 {
 		maxK = 3
 	}
+	if zzChoose(8) == 7 {
+		zzC01Star(pool, maxO)
+		return
+	}
 	k := zzChoose(maxK) + 1
 	pats := make([]zzPat, k)
 	for i := range pats {
@@ -88,4 +92,33 @@ func zzH_C01_api() {
 		zzAssert(!want || !zzBrowserish(o), "an origin denoted by a listed pattern is not treated as allowed")
 		zzReach("not-allowed")
 	}
+}
+
+// zzC01Star: `*` listed together with discrete patterns, at every position:
+// the configuration allows every origin, wherever the `*` stands.
+func zzC01Star(pool, maxO int) {
+	before := zzChoose(3) // patterns listed before the `*`
+	after := zzChoose(3)  // and after it
+	var list []string
+	for i := 0; i < before; i++ {
+		list = append(list, zzC01Pool[zzChoose(pool)].raw)
+	}
+	list = append(list, "*")
+	for i := 0; i < after; i++ {
+		list = append(list, zzC01Pool[zzChoose(pool)].raw)
+	}
+	cfg := Config{Origins: list}
+	cfg.DangerouslyTolerateInsecureOrigins = true
+	cfg.DangerouslyTolerateSubdomainsOfPublicSuffixes = true
+	m, err := NewMiddleware(cfg)
+	zzAssert(err == nil && m != nil, "`*` together with valid origin patterns rejected")
+	if err != nil {
+		return
+	}
+	o := zzString(maxO)
+	q := zzMkRequest("GET", []string{o}, nil, nil, nil, true, false, false, false)
+	_, resp := zzServe(m, q, nil, &zzHandler{})
+	acao := resp.h[zzACAO]
+	zzAssert(len(acao) == 1 && acao[0] == "*", "a configuration that lists `*` does not allow every origin")
+	zzReach("star")
 }
